@@ -510,4 +510,206 @@ def exQ : Node := { Node.init 3 with exits := [(700, ⟨⟨2, 2, 73⟩, 2, [(700
 
 instance (n : Node) : Decidable (QueueOwn n) := by unfold QueueOwn; exact inferInstance
 
+/-! ### a pending extension blocks re-creation of the id it extends -/
+
+/-- every pending CreateRequestCache (an EXTEND was accepted, the CREATED is not back yet) refers to an id that is
+    still in the created-cache — which is what makes `on_create` refuse that id -/
+def PendingCovered (n : Node) : Prop := ∀ rq ∈ n.creates, n.created.contains rq.fromId = true
+
+/-- how one step may change the two caches: pending requests only disappear, or appear for ids in the created-cache;
+    the created-cache only grows — or both caches are emptied together (time-out tick) -/
+def CC (n n' : Node) : Prop :=
+  ((∀ x ∈ n'.creates, x ∈ n.creates ∨ n.created.contains x.fromId = true) ∧ (∀ c ∈ n.created, c ∈ n'.created)) ∨
+  n'.creates = []
+
+theorem pc_of_cc {n n' : Node} (h : CC n n') (hp : PendingCovered n) : PendingCovered n' := by
+  cases h with
+  | inr h0 => intro rq hrq; rw [h0] at hrq; cases hrq
+  | inl h =>
+    intro rq hrq
+    have hin : n.created.contains rq.fromId = true := by
+      cases h.1 rq hrq with
+      | inl h1 => exact hp rq h1
+      | inr h1 => exact h1
+    simp only [List.contains_iff_mem] at hin ⊢
+    exact h.2 _ hin
+
+theorem cc_same {n n' : Node} (h1 : n'.creates = n.creates) (h2 : n'.created = n.created) : CC n n' :=
+  Or.inl ⟨fun x hx => Or.inl (h1 ▸ hx), fun c hc => h2 ▸ hc⟩
+
+theorem popCreate_sub (l : List CreateReq) (k : Nat) (r : CreateReq) (rest : List CreateReq) :
+    popCreate l k = some (r, rest) → ∀ x ∈ rest, x ∈ l := by
+  induction l generalizing rest with
+  | nil => intro h; simp [popCreate] at h
+  | cons hd t ih =>
+    intro h x hx
+    unfold popCreate at h
+    split at h
+    · cases h
+      exact List.mem_cons_of_mem _ hx
+    · split at h
+      · rename_i y t' heq
+        cases h
+        cases hx with
+        | head => exact List.mem_cons_self
+        | tail _ hx' => exact List.mem_cons_of_mem _ (ih t' heq x hx')
+      · cases h
+
+section
+variable {B : Type} (A : Aead B)
+
+theorem sendCell_cc (n : Node) (dst : Nat) (c : Cell B) (x : Bool) :
+    (sendCell A n dst c x).1.creates = n.creates ∧ (sendCell A n dst c x).1.created = n.created := by
+  unfold sendCell
+  cases get n.circuits c.cid <;> (dsimp only; split <;> exact ⟨rfl, rfl⟩)
+
+theorem sendMsg_cc (n : Node) (dst cid : Nat) (m : Msg) :
+    (sendMsg A n dst cid m).1.creates = n.creates ∧ (sendMsg A n dst cid m).1.created = n.created :=
+  sendCell_cc A n dst _ _
+
+theorem oursCreated_cc (n : Node) (cid : Nat) (circ : Circ) (key authPk dhRef : Nat) (ch : Choice) :
+    CC n (oursCreated A n cid circ key authPk dhRef ch).1 := by
+  unfold oursCreated
+  repeat' (first
+    | exact cc_same rfl rfl
+    | exact cc_same (sendMsg_cc A _ _ _ _).1 (sendMsg_cc A _ _ _ _).2
+    | split
+    | dsimp only)
+
+theorem onCreate_cc (n : Node) (src cid ident pk dh : Nat) : CC n (onCreate A n src cid ident pk dh).1 := by
+  unfold onCreate
+  split
+  · exact cc_same rfl rfl
+  · split
+    · exact cc_same rfl rfl
+    · split
+      · exact cc_same rfl rfl
+      · dsimp only
+        refine Or.inl ⟨fun x hx => Or.inl ?_, fun c hc => ?_⟩
+        · rw [(sendMsg_cc A _ _ _ _).1] at hx; exact hx
+        · rw [(sendMsg_cc A _ _ _ _).2]; exact List.mem_append_left _ hc
+
+theorem onCreated_cc (n : Node) (cid ident key authPk dhRef : Nat) (ch : Choice) :
+    CC n (onCreated A n cid ident key authPk dhRef ch).1 := by
+  unfold onCreated
+  cases hpop : popCreate n.creates ident with
+  | none =>
+    dsimp only
+    split
+    · exact cc_same rfl rfl
+    · split
+      · exact oursCreated_cc A _ _ _ _ _ _ _
+      · exact cc_same rfl rfl
+  | some pr =>
+    obtain ⟨rq, rest⟩ := pr
+    have hsub := popCreate_sub _ _ _ _ hpop
+    dsimp only
+    split
+    · exact Or.inl ⟨fun x hx => Or.inl (hsub x hx), fun c hc => hc⟩
+    · dsimp only
+      refine Or.inl ⟨fun x hx => Or.inl ?_, fun c hc => ?_⟩
+      · rw [(sendMsg_cc A _ _ _ _).1] at hx; exact hsub x hx
+      · rw [(sendMsg_cc A _ _ _ _).2]; exact hc
+
+theorem onExtend_cc (n : Node) (cid ident dh : Nat) (ch : Choice) : CC n (onExtend A n cid ident dh ch).1 := by
+  unfold onExtend
+  by_cases hc : n.created.contains cid = true
+  · simp only [hc, Bool.not_true, Bool.false_eq_true, if_false]
+    split
+    · exact cc_same rfl rfl
+    · split
+      · exact cc_same rfl rfl
+      · refine Or.inl ⟨fun x hx => ?_, fun c hc' => ?_⟩
+        · rw [(sendMsg_cc A _ _ _ _).1] at hx
+          simp only [List.mem_append, List.mem_singleton] at hx
+          cases hx with
+          | inl h => exact Or.inl h
+          | inr h => subst h; exact Or.inr hc
+        · rw [(sendMsg_cc A _ _ _ _).2]; exact hc'
+  · have : n.created.contains cid = false := by simpa using hc
+    simp only [this, Bool.not_false, if_true]
+    exact cc_same rfl rfl
+
+theorem onExtended_cc (n : Node) (cid ident key authPk dhRef : Nat) (ch : Choice) :
+    CC n (onExtended A n cid ident key authPk dhRef ch).1 := by
+  unfold onExtended
+  repeat' (first
+    | exact cc_same rfl rfl
+    | exact oursCreated_cc A _ _ _ _ _ _ _
+    | split)
+
+theorem exitData_cc (n : Node) (src cid dest tag : Nat) : CC n (exitData (B := B) n src cid dest tag).1 := by
+  unfold exitData
+  repeat' (first | exact cc_same rfl rfl | split | dsimp only)
+
+theorem onData_cc (n : Node) (src cid dest org tag : Nat) : CC n (onData (B := B) n src cid dest org tag).1 := by
+  have key : ∀ b : Bool, CC n ((if b = true then (n, [Out.rawIn cid org tag])
+      else if dest = 0 then (n, []) else exitData n src cid dest tag : Node × List (Out B))).1 := by
+    intro b
+    cases b
+    · by_cases hd : dest = 0
+      · simp only [Bool.false_eq_true, if_false, hd, if_true]; exact cc_same rfl rfl
+      · simp only [Bool.false_eq_true, if_false, hd]; exact exitData_cc n src cid dest tag
+    · simp only [if_true]; exact cc_same rfl rfl
+  unfold onData
+  exact key _
+
+theorem onPing_cc (n : Node) (src cid ident : Nat) : CC n (onPing A n src cid ident).1 := by
+  unfold onPing
+  split
+  · exact cc_same (sendMsg_cc A _ _ _ _).1 (sendMsg_cc A _ _ _ _).2
+  · exact cc_same rfl rfl
+
+theorem relayCell_cc (n : Node) (c : Cell B) (nx : Relay) : CC n (relayCell A n c nx).1 := by
+  unfold relayCell
+  repeat' (first | exact cc_same rfl rfl | split | dsimp only)
+
+theorem processCell_cc (n : Node) (src : Nat) (c : Cell B) (ch : Choice) : CC n (processCell A n src c ch).1 := by
+  unfold processCell
+  cases hr : get n.relays c.cid with
+  | some nx => exact relayCell_cc A _ _ _
+  | none =>
+    dsimp only
+    cases hin : inCrypto A n c with
+    | none => exact cc_same rfl rfl
+    | some b =>
+      dsimp only
+      cases hp : A.parse b with
+      | none => exact cc_same rfl rfl
+      | some m =>
+        dsimp only
+        split
+        · exact cc_same rfl rfl
+        · split
+          · exact cc_same rfl rfl
+          · cases m with
+            | data dest org tag => exact onData_cc n src c.cid dest org tag
+            | create ident pk dh => exact onCreate_cc A n src c.cid ident pk dh
+            | created ident key authPk dhRef => exact onCreated_cc A n c.cid ident key authPk dhRef ch
+            | extend ident pk dh => exact onExtend_cc A n c.cid ident dh ch
+            | extended ident key authPk dhRef => exact onExtended_cc A n c.cid ident key authPk dhRef ch
+            | ping ident => exact onPing_cc A n src c.cid ident
+            | pong ident => exact cc_same rfl rfl
+            | other mid => exact cc_same rfl rfl
+
+theorem onDestroy_cc (n : Node) (signer cid : Nat) (ok : Bool) : CC n (onDestroy (B := B) n signer cid ok).1 := by
+  unfold onDestroy destroyLocal destroyCircuit
+  repeat' (first | exact cc_same rfl rfl | split | dsimp only)
+
+theorem pingAll_cc (n : Node) (l : List (Nat × Circ)) :
+    (pingAll A n l).1.creates = n.creates ∧ (pingAll A n l).1.created = n.created := by
+  induction l generalizing n with
+  | nil => exact ⟨rfl, rfl⟩
+  | cons p t ih =>
+    obtain ⟨cid, c⟩ := p
+    unfold pingAll
+    split
+    · dsimp only
+      exact ⟨(ih _).1.trans (sendMsg_cc A _ _ _ _).1, (ih _).2.trans (sendMsg_cc A _ _ _ _).2⟩
+    · exact ih n
+
+end
+/-- a node whose exit entry 700 was removed while its extension (to id 900 at peer 4) is still pending -/
+def exP : Node := { Node.init 3 with created := [700], creates := [⟨5, 9, 900, 700, ⟨2, 2, 0⟩, ⟨4, 4, 0⟩⟩] }
+
 end Ipv8.C05
